@@ -27,6 +27,7 @@ EXPLANATION = (
     ' (R11, round 3) is_valid_solution() computes |flow - load| on Python numbers (fixed-width numpy scalars wrap around).'
     ' (R2, round 4) the flag / constraint pairing of the safety fixing (C05.R1) is checked here too: the consumers replace the product of an edge flagged `= 1` by the weight.'
     ' (R3, hunt 4) w_max is not truncated in any model; (R11) the big-M of row 22a is summed on Python numbers.'
+    " (R4, seeds 6) on the greedy route paths and weights are each padded to k by their own deficit. (R11, hunt 6) the caller's numbers in the given-weights rows and the subset row of the walk model are float() coefficients; the readers of the flow-safe scan take every real number."
 )
 DECIDED = ["10d equality present, complete and exact in all flow encoders", "product linking exact for every non-ignored edge and layer",
            "requested numeric type of weights", "greedy route publishes what it computed and only when admissible"]
@@ -61,6 +62,23 @@ def greedy_publishes(prog: Program, rep, RID: str):
         pvals = norm(d.get("paths"))
         if pv not in pvals:
             rep.violation(RID, "kFlowDecomp._get_solution_with_greedy:paths", f"publishes `paths: {pvals}` which is not derived from the greedy paths `{pv}`", f.loc(st))
+    # padding to k entries: each list is padded by its own deficit (`X += [.. for _ in range(self.k - len(X))]`); a list padded by the deficit of the other one,
+    # measured after that one was padded already, stays short: k paths are published with fewer weights
+    pads = [st for st in walk_no_nested(f.node) if isinstance(st, ast.AugAssign) and isinstance(st.op, ast.Add) and isinstance(st.target, ast.Name) and
+            st.target.id in (pv, wv) and isinstance(st.value, (ast.ListComp, ast.BinOp))]
+    for st in pads:
+        keyp = f"kFlowDecomp._get_solution_with_greedy:padding[{st.target.id}]"
+        lens = [norm(c.args[0]) for c in ast.walk(st.value) if isinstance(c, ast.Call) and dotted(c.func) == "len" and len(c.args) == 1 and norm(c.args[0]) in (pv, wv)]
+        if not lens:
+            raise AnalysisError(f"greedy: padding `{norm(st)[:80]}` does not count a deficit with len()")
+        earlier_padded = {p_.target.id for p_ in pads if p_.lineno < st.lineno}
+        if all(l == st.target.id for l in lens):
+            rep.ok(RID, keyp, f"`{st.target.id}` is padded by its own deficit", f.loc(st))
+        elif any(l in earlier_padded for l in lens):
+            rep.violation(RID, keyp, f"`{norm(st)[:100]}` pads `{st.target.id}` by the deficit of `{lens[0]}`, which was padded to k just before: nothing is appended, and "
+                          "get_solution() returns k paths with fewer weights (kFlowDecomp with k above the number of greedy paths)", f.loc(st))
+        else:
+            raise AnalysisError(f"greedy: padding `{norm(st)[:80]}` counts the deficit of another list: not recognised")
     if all(k == keysets[0] for k in keysets):
         rep.ok(RID, "kFlowDecomp._get_solution_with_greedy:sibling-keys", f"edge and node branches publish the same keys {sorted(keysets[0])}", f.loc())
     else:
